@@ -46,6 +46,8 @@ def check_run(acc, m, e, n, rep, unit, cont=None):
     dtF = dec(m, e)
     dt = float(dtF)
     T = dt * n if rep == 'mul' else float(dtF * n)
+    if dtF.denominator == 1 and rep == 'lit' and n % 2:
+        dt, T = int(dtF), int(dtF * n)          # integer-valued quantities
     case = {'kind': 'run', 'm': m, 'e': e, 'n': n, 'rep': rep, 'unit': unit, 'cont': cont}
     mod = sim.Model(SPEC)
     try:
